@@ -1258,6 +1258,27 @@ fn part_c_probes(root: &Path, st: &mut Stats) {
             (s, o) => st.fail("oracle", "probe-nonconst-global", format!("unexpected outcome: static={s} output {o:?} err {:?}", ro.rustc_err.as_ref().map(|e| e.chars().take(300).collect::<String>())), "probe_nonconst_global"),
         }
     }
+    // 6c. declared mutability of array globals, however many dimensions: `const` belongs to the elements
+    if let Some((inv, _pred, ro)) = probe("probe_global_mut", "extern const int c04_m2[2][3];\nextern int c04_w2[2][2];\nextern const long c04_k1[3];\nextern const char *const c04_nn[2][2];\nextern const char *c04_pn[2][2];\nextern const short c04_m3[2][2][2];\n",
+        "const int c04_m2[2][3] = {{1,2,3},{4,5,6}};\nint c04_w2[2][2] = {{1,2},{3,4}};\nconst long c04_k1[3] = {7,8,9};\nconst char *const c04_nn[2][2] = {{\"a\",\"b\"},{\"c\",\"d\"}};\nconst char *c04_pn[2][2] = {{\"a\",\"b\"},{\"c\",\"d\"}};\nconst short c04_m3[2][2][2] = {{{1,2},{3,4}},{{5,6},{7,8}}};\n",
+        "c04_w2[1][1] = 9; println!(\"R {} {} {} {}\", c04_m2[1][2], c04_w2[1][1], c04_k1[2], c04_m3[1][1][1]);", CbMode::None, root, st) {
+        let want = [("c04_m2", false), ("c04_w2", true), ("c04_k1", false), ("c04_nn", false), ("c04_pn", true), ("c04_m3", false)];
+        let got: Vec<(String, Option<bool>)> = want.iter().map(|(n, _)| (n.to_string(), inv.statics.iter().find(|s| s.ident == *n).map(|s| s.mutable))).collect();
+        let bad: Vec<String> = want.iter().zip(got.iter()).filter(|((_, w), (_, g))| *g != Some(*w)).map(|((n, w), (_, g))| format!("{n}: declared {} but bound {:?}", if *w { "mutable" } else { "const" }, g.map(|m| if m { "static mut" } else { "static" }))).collect();
+        if !bad.is_empty() { st.fail("oracle", "probe-global-mutability", format!("array globals do not have the declared mutability: {bad:?}"), "probe_global_mut"); }
+        else if ro.stdout.trim() != "R 6 9 9 8" { st.fail("oracle", "probe-global-mutability", format!("output {:?} err {:?}", ro.stdout, ro.rustc_err.as_ref().map(|e| e.chars().take(300).collect::<String>())), "probe_global_mut"); }
+        else { st.distinct.insert("probe:global-mutability".into()); }
+    }
+    // 6d. a global with internal linkage and no constant value (`static int c;`): there is no symbol a binding could name
+    if let Some((inv, _pred, ro)) = probe("probe_static_global", "static int c04_sv;\nstatic const int c04_sk = 3;\nint c04_svget(void);\n", "int c04_svget(void) { return c04_sv + c04_sk; }\n",
+        "println!(\"R {} {}\", c04_sk, c04_sv);", CbMode::None, root, st) {
+        let bound = inv.statics.iter().any(|s| s.ident == "c04_sv");
+        match (bound, &ro.rustc_err) {
+            (true, Some(e)) if e.contains("c04_sv") => { *st.known.entry("internal_linkage_global_bound: `static int c04_sv;` (internal linkage, no constant value) is bound as `extern { pub static mut c04_sv }`: no object file defines that symbol, a use fails at link time".into()).or_insert(0) += 1; }
+            (false, _) => { st.distinct.insert("probe:static-global:fixed".into()); }
+            (b, e) => st.fail("oracle", "probe-static-global", format!("unexpected outcome: bound={b} err={:?} out={:?}", e.as_ref().map(|e| e.chars().take(300).collect::<String>()), ro.stdout), "probe_static_global"),
+        }
+    }
     // 7. C overload sets (`__attribute__((overloadable))`) with one transparent (unmangled) member at every
     //    position: the member that is renamed `<name><k>` must still reach the symbol `<name>`
     let tys: [(&str, &str); 6] = [("long", "l"), ("double", "d"), ("int", "i"), ("unsigned", "j"), ("short", "s"), ("float", "f")];
